@@ -112,59 +112,70 @@ Definition simple_esc (d : N) : option N :=
 
 Definition hv4 (a b c d : N) : N := ((hexval a * 16 + hexval b) * 16 + hexval c) * 16 + hexval d.
 
-(* re.sub of  backslash ( [' dq a b f n r t v] | backslash | [0-7]{1,3} | x[0-9a-fA-F]{2} | u[0-9a-fA-F]{4} )  by replace_esc;
-   [accU] adds the alternative U[0-9a-fA-F]{8} (the repair proposed in fixes/; false = the code as
-   it is).  A backslash at which no alternative matches is copied and scanning resumes after it. *)
-Fixpoint expand (accU : bool) (s : str) : str :=
-  match s with
-  | [] => []
-  | c :: r =>
-      if negb (N.eqb c cBS) then c :: expand accU r
-      else match r with
-      | [] => [c]
-      | d :: r1 =>
-        match simple_esc d with
-        | Some x => x :: expand accU r1
-        | None =>
-          if isoct d then
-            match r1 with
-            | d2 :: r2 =>
-                if isoct d2 then
-                  match r2 with
-                  | d3 :: r3 =>
-                      if isoct d3 then (((d - 48) * 8 + (d2 - 48)) * 8 + (d3 - 48))%N :: expand accU r3
-                      else ((d - 48) * 8 + (d2 - 48))%N :: expand accU r2
-                  | [] => [((d - 48) * 8 + (d2 - 48))%N]
-                  end
-                else (d - 48)%N :: expand accU r1
-            | [] => [(d - 48)%N]
-            end
-          else if N.eqb d 120 then
-            match r1 with
-            | h1 :: h2 :: r3 =>
-                if ishex h1 && ishex h2 then (hexval h1 * 16 + hexval h2)%N :: expand accU r3
-                else c :: expand accU r
-            | _ => c :: expand accU r
-            end
-          else if N.eqb d 117 then
-            match r1 with
-            | h1 :: h2 :: h3 :: h4 :: r5 =>
-                if ishex h1 && ishex h2 && ishex h3 && ishex h4 then hv4 h1 h2 h3 h4 :: expand accU r5
-                else c :: expand accU r
-            | _ => c :: expand accU r
-            end
-          else if accU && N.eqb d 85 then
-            match r1 with
-            | h1 :: h2 :: h3 :: h4 :: h5 :: h6 :: h7 :: h8 :: r9 =>
-                if ishex h1 && ishex h2 && ishex h3 && ishex h4 && ishex h5 && ishex h6 && ishex h7 && ishex h8
-                then (hv4 h1 h2 h3 h4 * 65536 + hv4 h5 h6 h7 h8)%N :: expand accU r9
-                else c :: expand accU r
-            | _ => c :: expand accU r
-            end
-          else c :: expand accU r
+(* re.sub of  backslash ( [' dq a b f n r t v] | backslash | [0-7]{1,3} | x[0-9a-fA-F]{2} | u[0-9a-fA-F]{4} )  by replace_esc.
+   [esc_step accU r]: r is the text after a backslash; Some (character, number of characters of r
+   consumed) if an alternative matches there, None otherwise.  [accU] adds the alternative
+   U[0-9a-fA-F]{8} (the repair proposed in fixes/; false = the code as it is). *)
+Definition oct (d : N) : N := d - 48.
+Definition esc_step (accU : bool) (r : str) : option (N * nat) :=
+  match r with
+  | [] => None
+  | d :: r1 =>
+    match simple_esc d with
+    | Some x => Some (x, 1%nat)
+    | None =>
+      if isoct d then
+        match r1 with
+        | d2 :: r2 =>
+            if isoct d2 then
+              match r2 with
+              | d3 :: _ => if isoct d3 then Some ((oct d * 8 + oct d2) * 8 + oct d3, 3%nat)
+                           else Some (oct d * 8 + oct d2, 2%nat)
+              | [] => Some (oct d * 8 + oct d2, 2%nat)
+              end
+            else Some (oct d, 1%nat)
+        | [] => Some (oct d, 1%nat)
         end
-      end
+      else if N.eqb d 120 then
+        match r1 with
+        | h1 :: h2 :: _ => if ishex h1 && ishex h2 then Some (hexval h1 * 16 + hexval h2, 3%nat) else None
+        | _ => None
+        end
+      else if N.eqb d 117 then
+        match r1 with
+        | h1 :: h2 :: h3 :: h4 :: _ =>
+            if ishex h1 && ishex h2 && ishex h3 && ishex h4 then Some (hv4 h1 h2 h3 h4, 5%nat) else None
+        | _ => None
+        end
+      else if accU && N.eqb d 85 then
+        match r1 with
+        | h1 :: h2 :: h3 :: h4 :: h5 :: h6 :: h7 :: h8 :: _ =>
+            if ishex h1 && ishex h2 && ishex h3 && ishex h4 && ishex h5 && ishex h6 && ishex h7 && ishex h8
+            then Some (hv4 h1 h2 h3 h4 * 65536 + hv4 h5 h6 h7 h8, 9%nat) else None
+        | _ => None
+        end
+      else None
+    end
   end.
+
+(* the substitution scans left to right; a backslash at which no alternative matches is copied and
+   scanning resumes after it.  Fuel = length of the text (never exhausted). *)
+Fixpoint expand_f (fuel : nat) (accU : bool) (s : str) : str :=
+  match fuel with
+  | O => []
+  | S f =>
+    match s with
+    | [] => []
+    | c :: r =>
+        if N.eqb c cBS then
+          match esc_step accU r with
+          | Some (x, k) => x :: expand_f f accU (skipn k r)
+          | None => c :: expand_f f accU r
+          end
+        else c :: expand_f f accU r
+    end
+  end.
+Definition expand (accU : bool) (s : str) : str := expand_f (length s) accU s.
 
 (* re.match(r/^[+-]?[0-9]*$/, s): optional sign, digits, and (Python's dollar) an optional final
    newline *)
